@@ -118,6 +118,10 @@ def run(ctx: RunCtx) -> None:
         precs = list(hp.records)
         pipe_rec = list(world.rec)
         cfg = legs.draw_http_cfg(ch, "h")
+        # a worker that never has the call cached (cache disabled = what a cold worker, a restart or an eviction look like):
+        # every continuation then takes the miss path of the call-state lookup
+        if ch.choose(3, "h.cache0") == 1:
+            cfg.cache_entries = 0
         if ch.chance(1, 4, "h.extcap"):
             cfg.ext_cap = [1, 2000][ch.choose(2, "h.extcapv")]
         with legs.access_capture(level) as hh:
